@@ -260,6 +260,10 @@ def run(ctx, report: Report) -> None:
     from .e2ematch import core_semantics_table
     core_semantics_table(ctx, r9)
 
+    # a select() that raises RecursionError on a deeply nested document returns nothing at all: the walk helpers are iterative
+    from .sem import no_tree_recursion_rule
+    no_tree_recursion_rule(ctx, r9)
+
 
 
 def comma_reset_rule(ctx, r7):
